@@ -1,30 +1,51 @@
-"""C17 - Guardrails-protected configurations are recovered iff the checksum matches (structural part)."""
+"""C17 - Guardrails-protected configurations are recovered iff the checksum matches (structural part).
+
+Every rule locates its subject by role (the value stored into `unmasked_beacon_config`, the expression compared with the
+stored checksum, the stream read that feeds the `masked_beacon_config` field, the variable bound to `grouper`'s `n` ...)
+and evaluates a semantic necessary condition on it: dominance / all-paths on the CFG, expressions compared after
+`inline` (temporaries, flag variables and tuple unpacking are transparent), arguments through `bind_args`, sizes and
+offsets as numbers / polynomials over the scan variable.  When the subject cannot be located any more the obligation is
+`undecided`; a located subject that fails its condition is a violation.
+"""
 
 from __future__ import annotations
 
 import ast
+import copy
 
 from csverif import cdefs as cdefs_mod, effects, loops, tables
 from csverif.absint import SymPoly, sympoly
-from csverif.astutil import assignments_to, body_walk, compare_parts, const_eval, dotted, fn_calls, is_const, kwarg, module_env, NotConst, params, src, statements, strip_cast
-from csverif.q import FuncView, dominating_conditions, guarded_by, origin, raise_class
+from csverif.astutil import (
+    assignments_to, bind_args, conjuncts, const_eval, dotted, fn_calls, module_env, nnf, NotConst, params, src,
+    statements, strip_cast,
+)
+from csverif.cfg import ENTRY, EXIT
+from csverif.q import FuncView, inline, origin
+
+CHECKSUM_MODULUS = 99999999
+BEACON_XOR_KEY = b"\x2e"
+BEACON_AREA, GUARD_AREA = 6144, 2048
+KEY_LENGTHS = (2, 256)
 
 
 def _c(node, env=None):
     try:
         return const_eval(node, env) if node is not None else None
-    except (NotConst, TypeError):
+    except (NotConst, TypeError, KeyError):
         return None
 
 
 def run(ctx):
     rep = ctx.rep
     rep.explanation = (
-        "Static analysis of guardrails.py and the fallback in BeaconConfig.from_file: the only non-None assignment of "
-        "unmasked_beacon_config is dominated by the checksum-equality edge and stores the very value whose checksum was "
-        "compared; from_file builds a configuration from a guardrail candidate only under a truthy unmasked config; the "
-        "marker table equals the serialisation of (option, type, length) from C_GUARDRAILS_DEF; geometry constants and the "
-        "unmasking expression; key-length range and checksum weights; escape set and loop termination of the scan."
+        "Static analysis of guardrails.py and the fallback in BeaconConfig.from_file: every non-None store into "
+        "unmasked_beacon_config / payload_xor_key is covered by the checksum-equality edge (dominance, or all paths to a "
+        "yield pass it) and stores the very value whose checksum was compared and the key it was unmasked with; every "
+        "guard configuration is yielded exactly once; from_file builds a configuration from a guardrail candidate only "
+        "under a truthy unmasked config; the marker table equals the serialisation of (option, type, length) from "
+        "C_GUARDRAILS_DEF; geometry of the scan (window, offsets, bulk reads as numbers / polynomials over the scan "
+        "variable) and the unmasking expressions as xor chains; key-length range and checksum formula as a polynomial; "
+        "escape set and loop termination of the scan."
     )
     rep.not_decided = ["that recovery succeeds for every key/option combination (n-gram statistics)", "checksum collisions"]
     rep.trusted_base = ["CPython ast", "networkx dominators", "C-definition parser", "escape-analysis trusted base (C08)"]
@@ -38,72 +59,712 @@ def run(ctx):
     r6(ctx)
 
 
+# ====================================================================================================== generic helpers
+# (candidates for hoisting into the engine)
+def _fq(ctx, f, call):
+    """Fully qualified name of the package function / class / external a call resolves to (partials -> target)."""
+    if not isinstance(call, ast.Call):
+        return None
+    cal = ctx.rs.resolve_call(f, call)
+    if cal.kind == "func" and cal.func is not None:
+        return cal.func.fq
+    return cal.fq
+
+
+def _bound(ctx, f, call):
+    """callee parameter -> argument expression of a call to a package function, `functools.partial` bindings of the
+    resolved symbol included (explicit arguments win over the partial's, the partial's over defaults)."""
+    cal = ctx.rs.resolve_call(f, call)
+    if cal.kind != "func" or cal.func is None:
+        return None
+    fn = cal.func.node
+    b = bind_args(call, fn, skip_self=bool(cal.recv_type))
+    pos = [p for p in params(fn)][1 if cal.recv_type else 0:]
+    given = {k.arg for k in call.keywords if k.arg} | set(pos[: len(call.args)])
+    for k, v in (cal.bound or {}).items():
+        if k not in given:
+            b[k] = v
+    return b
+
+
+_IMPURE = {}
+_CONSUMING = ("read", "read1", "readline", "readinto", "peek", "recv", "seek", "pop", "popleft", "send")
+
+
+def _prep(ctx, f):
+    """Names that must not be substituted by their definition: the definition consumes input (a stream read, a struct
+    parse, next(..)), so two occurrences of the name are one value but two occurrences of the definition are not."""
+    hit = _IMPURE.get(id(f.node))
+    if hit is not None and hit[0] is f.node:
+        return hit[1]
+    names = set()
+    for st in statements(f.node):
+        if isinstance(st, (ast.Assign, ast.AnnAssign)) and st.value is not None:
+            tgts = st.targets if isinstance(st, ast.Assign) else [st.target]
+            cons = False
+            for c in ast.walk(st.value):
+                if isinstance(c, ast.Call):
+                    if isinstance(c.func, ast.Attribute) and c.func.attr in _CONSUMING:
+                        cons = True
+                    elif dotted(c.func) == "next" or ctx.rs.resolve_call(f, c).kind == "struct":
+                        cons = True
+            if cons:
+                for t in tgts:
+                    names.update(n.id for n in ast.walk(t) if isinstance(n, ast.Name))
+    _IMPURE[id(f.node)] = (f.node, frozenset(names))
+    return _IMPURE[id(f.node)][1]
+
+
+def _inl(f, e, stop=()):
+    """`inline` that keeps input-consuming definitions (see _prep) as names."""
+    if e is None:
+        return None
+    hit = _IMPURE.get(id(f.node))
+    keep = hit[1] if hit is not None and hit[0] is f.node else frozenset()
+    return inline(f.node, e, stop=frozenset(stop) | keep)
+
+
+def _isrc(f, e, stop=()):
+    return src(_inl(f, e, stop)) if e is not None else None
+
+
+def _is_none(f, e):
+    e = _inl(f, e)
+    return isinstance(e, ast.Constant) and e.value is None
+
+
+def _edge_atoms(ctx, f):
+    """[(edge node, atom)]: `atom` holds on that outcome edge of an if/while test.  Tests are taken with their
+    single-definition temporaries (flag variables) expanded and in negation normal form, so `ok = a == b; if not ok:
+    continue` contributes `a == b` to the fall-through edge exactly like `if a == b:` does to its true edge."""
+    key = ("_c17_edge_atoms", f.fq)
+    cache = ctx.__dict__.setdefault("_c17_cache", {})
+    if key in cache:
+        return cache[key]
+    cfg = ctx.cfg(f)
+    _prep(ctx, f)
+    out = []
+    for n, s in cfg.stmt.items():
+        if isinstance(s, (ast.If, ast.While)):
+            t = _inl(f, s.test)
+            for lab, neg in (("true", False), ("false", True)):
+                for a in conjuncts(nnf(t, neg)):
+                    out.append((cfg.edge_node(s, lab), a))
+    cache[key] = out
+    return out
+
+
+def _holds_at(ctx, f, stmt, pred):
+    """Edges that dominate `stmt` and carry an atom satisfying pred."""
+    cfg = ctx.cfg(f)
+    if stmt is None or not cfg.has(stmt):
+        return []
+    tn = cfg.node(stmt)
+    return [(e, a) for e, a in _edge_atoms(ctx, f) if pred(a) and e != tn and cfg.dominates(e, tn)]
+
+
+def _attr_stores(fn, attr):
+    """[(stmt, text of the object expression, value|None)] for every store into attribute `attr` (plain / annotated /
+    tuple assignment, setattr); value None = not a plain expression."""
+    out = []
+    for st in statements(fn):
+        pairs = []
+        if isinstance(st, ast.Assign):
+            for t in st.targets:
+                if isinstance(t, (ast.Tuple, ast.List)):
+                    if isinstance(st.value, (ast.Tuple, ast.List)) and len(t.elts) == len(st.value.elts):
+                        pairs += list(zip(t.elts, st.value.elts))
+                    elif not any(isinstance(e, ast.Starred) for e in t.elts):
+                        pairs += [(e, ast.Subscript(value=st.value, slice=ast.Constant(value=i), ctx=ast.Load())) for i, e in enumerate(t.elts)]
+                    else:
+                        pairs += [(e, None) for e in t.elts]
+                else:
+                    pairs.append((t, st.value))
+        elif isinstance(st, ast.AnnAssign) and st.value is not None:
+            pairs.append((st.target, st.value))
+        elif isinstance(st, ast.AugAssign):
+            pairs.append((st.target, None))
+        elif isinstance(st, ast.Expr) and isinstance(st.value, ast.Call) and dotted(st.value.func) == "setattr" and len(st.value.args) == 3 \
+                and isinstance(st.value.args[1], ast.Constant) and st.value.args[1].value == attr:
+            out.append((st, src(st.value.args[0]), st.value.args[2]))
+        for t, v in pairs:
+            if isinstance(t, ast.Attribute) and t.attr == attr:
+                out.append((st, src(t.value), v))
+    return out
+
+
+def _xor_chain(ctx, f, e):
+    """e (already inlined) as (base, [keys]): xor(xor(base, k1), k2) -> (base, [k1, k2]).  The result of utils.xor has the
+    length of its first operand and the second is cycled over it, so keys commute with each other but not with the base."""
+    keys = []
+    while isinstance(e, ast.Call) and _fq(ctx, f, e) == "utils.xor":
+        b = _bound(ctx, f, e)
+        if not b or b.get("data") is None or b.get("key") is None:
+            break
+        keys.append(b["key"])
+        e = b["data"]
+    return e, keys
+
+
+def _reversed_of(e):
+    """X for `X[::-1]`, `bytes(reversed(X))`, `bytes(X[::-1])`; else None."""
+    if isinstance(e, ast.Call) and dotted(e.func) in ("bytes", "bytearray") and len(e.args) == 1 and not e.keywords:
+        inner = e.args[0]
+        if isinstance(inner, ast.Call) and dotted(inner.func) == "reversed" and len(inner.args) == 1:
+            return inner.args[0]
+        return _reversed_of(inner)
+    if isinstance(e, ast.Subscript) and isinstance(e.slice, ast.Slice) and e.slice.lower is None and e.slice.upper is None and _c(e.slice.step) == -1:
+        return e.value
+    return None
+
+
+class _Num:
+    """Numeric evaluation of integer expressions of a function: module constants, arithmetic, `io.DEFAULT_BUFFER_SIZE`
+    (8192), `len(..)` of constant byte strings, of utils.xor results (length of the data operand) and of elements of a
+    comprehension over a constant table.  `poly` gives the polynomial of an offset expression with everything numeric
+    folded and single-definition locals expanded."""
+
+    def __init__(self, ctx, f, env):
+        self.ctx, self.f, self.env = ctx, f, env
+
+    def val(self, e, stop=()):
+        return self._iv(_inl(self.f, e, stop)) if e is not None else None
+
+    def _iv(self, e):
+        v = _c(e, self.env)
+        if isinstance(v, int) and not isinstance(v, bool):
+            return v
+        if dotted(e) in ("io.DEFAULT_BUFFER_SIZE", "DEFAULT_BUFFER_SIZE"):
+            return 8192
+        if isinstance(e, ast.UnaryOp) and isinstance(e.op, ast.USub):
+            a = self._iv(e.operand)
+            return None if a is None else -a
+        if isinstance(e, ast.BinOp):
+            a, b = self._iv(e.left), self._iv(e.right)
+            if a is None or b is None:
+                return None
+            if isinstance(e.op, ast.Add):
+                return a + b
+            if isinstance(e.op, ast.Sub):
+                return a - b
+            if isinstance(e.op, ast.Mult):
+                return a * b
+            if isinstance(e.op, ast.FloorDiv) and b:
+                return a // b
+            if isinstance(e.op, ast.LShift) and 0 <= b < 64:
+                return a << b
+            return None
+        if isinstance(e, ast.Call) and dotted(e.func) == "len" and len(e.args) == 1:
+            return self._blen(e.args[0])
+        return None
+
+    def _blen(self, e):
+        v = _c(e, self.env)
+        if isinstance(v, (bytes, list, tuple, str)):
+            return len(v)
+        if isinstance(e, ast.Call) and _fq(self.ctx, self.f, e) == "utils.xor":
+            b = _bound(self.ctx, self.f, e)
+            return self._blen(b["data"]) if b and b.get("data") is not None else None
+        if isinstance(e, ast.Subscript) and not isinstance(e.slice, ast.Slice):
+            i = self._iv(e.slice)
+            comp = e.value
+            if isinstance(comp, ast.Call) and dotted(comp.func) in ("list", "tuple") and len(comp.args) == 1:
+                comp = comp.args[0]
+            if i is not None and isinstance(comp, (ast.ListComp, ast.GeneratorExp)) and len(comp.generators) == 1 and not comp.generators[0].ifs \
+                    and isinstance(comp.generators[0].target, ast.Name):
+                tab = _c(comp.generators[0].iter, self.env)
+                if isinstance(tab, (list, tuple)) and -len(tab) <= i < len(tab):
+                    var = comp.generators[0].target.id
+
+                    class _S(ast.NodeTransformer):
+                        def visit_Name(self, node):
+                            return ast.Constant(value=tab[i]) if node.id == var else node
+
+                    return self._blen(_S().visit(copy.deepcopy(comp.elt)))
+        return None
+
+    def poly(self, e, stop=()):
+        if e is None:
+            return None
+        e = _inl(self.f, e, stop)
+
+        def subst(x):
+            v = self._iv(x)
+            return SymPoly.const(v) if v is not None else None
+
+        return sympoly(e, subst)
+
+
+def _linear(p, var):
+    """(a, c) if polynomial p == a*var + c, else None."""
+    if p is None:
+        return None
+    a = c = 0
+    for k, v in p.terms.items():
+        if k == ():
+            c = v
+        elif k == (var,):
+            a = v
+        else:
+            return None
+    return a, c
+
+
+def _last_ops(ctx, f, ops, target):
+    """The stream operations (elements of `ops`; None = function entry) that can be the last one executed before the call
+    `target`: the file position at `target` is what they left.  Returns None if two operations share a statement."""
+    cfg = ctx.cfg(f)
+    fv = FuncView.of(f.node)
+    nodes = {}
+    for o in ops:
+        st = fv.stmt_of(o)
+        if st is None or not cfg.has(st):
+            return None
+        n = cfg.node(st)
+        if n in nodes:
+            return None
+        nodes[n] = o
+    tn = cfg.node(fv.stmt_of(target))
+    out = [o for n, o in nodes.items() if cfg.reaches(n, tn, avoiding=list(nodes))]
+    if cfg.reaches(ENTRY, tn, avoiding=list(nodes)):
+        out.append(None)
+    return out
+
+
+def _class_fields(ctx, fq):
+    """Ordered [(field, default|None)] of a dataclass-like class body."""
+    out = []
+    for st in ctx.repo.cls(fq).body:
+        if isinstance(st, ast.AnnAssign) and isinstance(st.target, ast.Name):
+            out.append((st.target.id, st.value))
+    return out
+
+
+def _ctor_calls(ctx, f, cls_fq):
+    return [c for c in fn_calls(f.node) if ctx.rs.resolve_call(f, c).kind == "class" and ctx.rs.resolve_call(f, c).fq == cls_fq]
+
+
+def _ctor_args(ctx, call, cls_fq):
+    """field -> argument expression (class default when omitted); None when the call uses * / ** arguments."""
+    if any(isinstance(a, ast.Starred) for a in call.args) or any(k.arg is None for k in call.keywords):
+        return None
+    fields = _class_fields(ctx, cls_fq)
+    out = {n: d for n, d in fields}
+    for (n, _d), a in zip(fields, call.args):
+        out[n] = a
+    for k in call.keywords:
+        out[k.arg] = k.value
+    return out
+
+
+# ================================================================================================================== R1
+def _checksum_atom(ctx, f, atom, g):
+    """Is `atom` (holding on an edge) the equality `<g>.checksum == payload_checksum(V) + 1`?
+    None: the atom does not compare <g>.checksum; else (ok, text of V | None, explanation)."""
+    if not (isinstance(atom, ast.Compare) and len(atom.ops) == 1 and isinstance(atom.ops[0], ast.Eq)):
+        return None
+    l, r = atom.left, atom.comparators[0]
+    pl, pr = sympoly(l), sympoly(r)
+    if pl is None or pr is None:
+        return None
+    d = pl - pr
+    ck = f"{g}.checksum"
+    if ck not in d.atoms():
+        return None
+    calls = [c for side in (l, r) for c in ast.walk(side) if isinstance(c, ast.Call) and _fq(ctx, f, c) == "guardrails.payload_checksum"]
+    if len(calls) != 1:
+        return False, None, f"`{src(atom)}` does not compare the stored checksum with one payload_checksum(..)"
+    b = _bound(ctx, f, calls[0]) or {}
+    v = next(iter(b.values()), None)
+    want = SymPoly.atom(ck) - SymPoly.atom(src(calls[0])) - SymPoly.const(1)
+    ok = d == want or d == -want
+    return ok, (src(v) if v is not None else None), f"`{src(atom)}` is {'' if ok else 'NOT '}<stored checksum> == payload_checksum({src(v) if v is not None else '?'}) + 1"
+
+
+def _covered(ctx, f, st, good, resets, sinks):
+    """A store is covered by the matching-checksum edges `good` if one of them dominates it, or if every path from the
+    store to a point where the object is handed out (yield / end of function) passes one of them or a reset to None."""
+    cfg = ctx.cfg(f)
+    n = cfg.node(st)
+    if any(e != n and cfg.dominates(e, n) for e in good):
+        return True, "dominated by the matching-checksum edge"
+    if not good and not resets:
+        return False, "no checksum comparison covers it"
+    via = list(good) + list(resets)
+    bad = [s for s in sinks if cfg.reaches(n, s, avoiding=via)]
+    if not bad:
+        return True, "every path from the store to a yield passes the matching-checksum edge or a reset to None"
+    return False, "reaches a yield / the end of the generator without passing the matching-checksum edge: " + " -> ".join(cfg.witness_path(n, bad[0], avoiding=via)[:8])
+
+
+def _flows(f, e, st, depth=0):
+    """[(anchors, leaf)]: the defining expressions the value of `e` at statement `st` may come from, each with the
+    statements it passes through on its way (the using statement first, then the definitions of the locals it is copied
+    through).  Locals with several plain definitions (a result variable set on different branches) and constant
+    projections of tuple-valued locals (`a, b = result`) are followed."""
+    e = strip_cast(e)
+    fn = f.node
+    if depth <= 6:
+        if isinstance(e, ast.Name) and e.id not in params(fn):
+            defs = assignments_to(fn, e.id)
+            if defs and all(v is not None and isinstance(d, ast.stmt) for d, v in defs):
+                out = []
+                for d, v in defs:
+                    for anchors, leaf in _flows(f, v, d, depth + 1):
+                        out.append(([st] + anchors, leaf))
+                return out
+        if isinstance(e, ast.Subscript) and isinstance(e.value, ast.Name) and isinstance(e.slice, ast.Constant) and type(e.slice.value) is int and e.value.id not in params(fn):
+            i = e.slice.value
+            defs = assignments_to(fn, e.value.id)
+            if defs and all(isinstance(v, (ast.Tuple, ast.List)) and isinstance(d, ast.stmt) and 0 <= i < len(v.elts)
+                            and not any(isinstance(x, ast.Starred) for x in v.elts) for d, v in defs):
+                out = []
+                for d, v in defs:
+                    for anchors, leaf in _flows(f, v.elts[i], d, depth + 1):
+                        out.append(([st] + anchors, leaf))
+                return out
+    return [([st], e)]
+
+
 def r1(ctx):
     f = ctx.repo.func("guardrails.iter_guardrail_configs_with_beacon")
-    stores = [s for s in statements(f.node) if isinstance(s, ast.Assign) and (dotted(s.targets[0]) or "").endswith(".unmasked_beacon_config")]
-    ctx.rep.count("unmasked_config_stores", len(stores), floor=1)
-    for st in stores:
-        val = dotted(st.value)
-        g = dotted(st.targets[0]).rsplit(".", 1)[0]
-        # a dominating `g.checksum == <name>` where <name> = payload_checksum(<val>) + 1
-        ok = False
-        detail = "store is not dominated by a checksum comparison"
-        for t, pol, n in dominating_conditions(ctx, f, st):
-            if not pol:
+    cfg = ctx.cfg(f)
+    _prep(ctx, f)
+    ystmts = [s for s in statements(f.node) if isinstance(s, ast.Expr) and isinstance(s.value, (ast.Yield, ast.YieldFrom))]
+    sinks = [cfg.node(s) for s in ystmts if cfg.has(s)] + [EXIT]
+
+    def stores(attr):
+        """[(stmt, object text, [(anchors, non-None leaf)] | None)] and the CFG nodes of the pure None stores per object"""
+        live, resets = [], {}
+        for st, g, v in _attr_stores(f.node, attr):
+            if v is None:
+                live.append((st, g, None))
                 continue
-            for l, op, r in compare_parts(n):
-                if isinstance(op, ast.Eq) and f"{g}.checksum" in (dotted(l), dotted(r)):
-                    other = r if dotted(l) == f"{g}.checksum" else l
-                    oo = origin(f.node, other)
-                    p = sympoly(oo)
-                    calls = [c for c in ast.walk(oo) if isinstance(c, ast.Call) and ctx.rs.resolve_call(f, c).fq == "guardrails.payload_checksum"]
-                    same = len(calls) == 1 and dotted(calls[0].args[0]) == val
-                    plus1 = len(calls) == 1 and p == SymPoly.atom(src(calls[0])) + SymPoly.const(1)
-                    ok = same and plus1
-                    detail = f"dominated by `{t}`; compared value is payload_checksum({dotted(calls[0].args[0]) if calls else '?'}) + 1={plus1}; the stored value is that same `{val}`={same}"
-        ctx.ob("R1", "DOM", f, src(st), ok, detail, st)
-    # the key is stored with it
-    ks = [s for s in statements(f.node) if isinstance(s, ast.Assign) and (dotted(s.targets[0]) or "").endswith(".payload_xor_key")]
-    ok = len(ks) == 1 and stores and ctx.cfg(f).dominates(ctx.cfg(f).node(ks[0]), ctx.cfg(f).node(stores[0])) or (len(ks) == 1 and stores and any(t for t, pol, n in dominating_conditions(ctx, f, ks[0]) if pol and "checksum" in t))
-    ctx.ob("R1", "DOM", f, "payload_xor_key stored under the same test", bool(ok), "the environmental key is recorded only for a matching checksum")
-    # unguarded = xor(guarded_config, xorkey); guarded = xor(masked_beacon_config, beacon_xor_key)
-    UNG = dotted(stores[0].value) if stores else "unguarded"
-    un = [v for st, v in assignments_to(f.node, UNG)]
-    ok = len(un) == 1 and isinstance(un[0], ast.Call) and ctx.rs.resolve_call(f, un[0]).fq == "utils.xor"
-    if ok:
-        a0 = origin(f.node, un[0].args[0])
-        ok = isinstance(a0, ast.Call) and ctx.rs.resolve_call(f, a0).fq == "utils.xor" and src(a0.args[0]).endswith(".masked_beacon_config") and src(a0.args[1]).endswith(".beacon_xor_key")
-        cands = [c for c in fn_calls(f.node) if ctx.rs.resolve_call(f, c).fq == "guardrails.find_xor_key_candidates"]
-        ok = ok and len(cands) == 1 and dotted(un[0].args[0]) is not None and dotted(un[0].args[0]) in src(cands[0])
-    ctx.ob("R1", "AGREE", f, "unguarded = xor(xor(masked, beacon key), candidate)", bool(ok), "candidate keys are tried on the single-byte-unmasked configuration they were derived from" if ok else "unmasking chain not recognised")
+            fl = [(a, leaf) for a, leaf in _flows(f, v, st) if not _is_none(f, leaf)]
+            if fl:
+                live.append((st, g, fl))
+            elif cfg.has(st):
+                resets.setdefault(g, []).append(cfg.node(st))
+        return live, resets
+
+    clive, cresets = stores("unmasked_beacon_config")
+    klive, kresets = stores("payload_xor_key")
+    if not clive:
+        ctx.undecided("R1", "DOM", f, "unmasked_beacon_config stores", "no store into <candidate>.unmasked_beacon_config found in the validating iterator")
+    else:
+        ctx.rep.count("unmasked_config_stores", len(clive), floor=1)
+
+    def covered(anchors, good, resets):
+        """the value is produced, copied or stored under the matching-checksum edge"""
+        ok, why = _covered(ctx, f, anchors[0], good, resets, sinks)
+        if not ok:
+            for a in anchors[1:]:
+                n = cfg.node(a) if cfg.has(a) else None
+                if n is not None and any(e != n and cfg.dominates(e, n) for e in good):
+                    return True, f"the stored value is produced under the matching-checksum edge (`{src(a)[:60]}`)"
+        return ok, why
+
+    chains = []  # (stmt, object text, inlined stored value)
+    good_of = {}  # (object text, candidate key text) -> matching edges of a configuration value unmasked with that key
+    for st, g, fl in clive:
+        if fl is None:
+            ctx.undecided("R1", "DOM", f, "unmasked_beacon_config store", f"`{src(st)}` is not a plain assignment", st)
+            continue
+        for anchors, leaf in fl:
+            vi = _inl(f, leaf)
+            vs = src(vi)
+            good, notes = [], []
+            for e, a in _edge_atoms(ctx, f):
+                m = _checksum_atom(ctx, f, a, g)
+                if m is None:
+                    continue
+                notes.append(m[2] + ("" if m[1] == vs or not m[0] else f"; but the value stored is `{vs}`"))
+                if m[0] and m[1] == vs:
+                    good.append(e)
+            ok, why = covered(anchors, good, cresets.get(g, []))
+            ctx.ob("R1", "DOM", f, "unmasked_beacon_config stored under the checksum test", ok, f"{why}; checksum tests: {sorted(set(notes)) or 'none'}", st)
+            chains.append((st, g, vi))
+            _base, keys = _xor_chain(ctx, f, vi)
+            for k in keys:
+                if not _is_beacon_key(f, k, g):
+                    good_of.setdefault((g, src(k)), []).extend(good)
+    # the environmental key recorded with it: same coverage, and it is the key the stored value was unmasked with
+    for g in sorted({g for _st, g, _fl in clive}):
+        ks = [(s2, fl2) for s2, g2, fl2 in klive if g2 == g]
+        if not ks:
+            ctx.ob("R1", "DOM", f, "payload_xor_key stored under the same test", False, "the environmental key is never recorded for the candidate whose configuration is unmasked")
+        for s2, fl2 in ks:
+            if fl2 is None:
+                ctx.undecided("R1", "DOM", f, "payload_xor_key stored under the same test", f"`{src(s2)}` is not a plain assignment", s2)
+                continue
+            for anchors, leaf in fl2:
+                k2 = _isrc(f, leaf)
+                same = (g, k2) in good_of
+                ok2, why2 = covered(anchors, good_of.get((g, k2), []), kresets.get(g, []))
+                ctx.ob("R1", "DOM", f, "payload_xor_key stored under the same test", ok2 and same,
+                       f"{why2}; recorded key `{k2}` is {'' if same else 'NOT '}the candidate-key operand of an unmasked configuration stored for the same candidate", s2)
+    _r1_chain(ctx, f, chains)
+    _r1_scan_prefill(ctx)
+    _r1_yields(ctx, f, ystmts)
+
+
+def _is_beacon_key(f, k, g):
+    return src(k) == f"{g}.beacon_xor_key" or _c(k) == BEACON_XOR_KEY
+
+
+def _r1_chain(ctx, f, chains):
+    """stored value = xor(xor(<g>.masked_beacon_config, single-byte key), K) with K iterating over
+    find_xor_key_candidates(<stream over xor(<g>.masked_beacon_config, single-byte key)>)."""
+    text = "unguarded = xor(xor(masked, beacon key), candidate)"
+    cands = [c for c in fn_calls(f.node) if _fq(ctx, f, c) == "guardrails.find_xor_key_candidates"]
+    for st, g, vi in chains:
+        base, keys = _xor_chain(ctx, f, vi)
+        if not keys:
+            ctx.ob("R1", "AGREE", f, text, False, f"the stored value `{src(vi)}` is not an xor of the masked configuration", st)
+            continue
+        if len(cands) != 1:
+            ctx.undecided("R1", "AGREE", f, text, f"{len(cands)} calls of find_xor_key_candidates: cannot tell where the candidate keys come from")
+            continue
+        b = _bound(ctx, f, cands[0]) or {}
+        stream = _inl(f, next(iter(b.values()), None))
+        data = stream
+        while isinstance(data, ast.Call) and (dotted(data.func) or "").split(".")[-1] in ("BytesIO", "BufferedReader") and len(data.args) == 1:
+            data = data.args[0]
+        if data is stream or data is None:
+            ctx.undecided("R1", "AGREE", f, text, f"candidate keys are derived from `{src(stream)}`, not an in-memory stream")
+            continue
+        cbase, ckeys = _xor_chain(ctx, f, data)
+        # the candidate variable: bound by a for loop over (an alias of) the candidates call
+        kvars = []
+        for s2 in statements(f.node):
+            if isinstance(s2, ast.For) and isinstance(s2.target, ast.Name) and origin(f.node, s2.iter) is cands[0]:
+                kvars.append(s2.target.id)
+        if not kvars:
+            ctx.undecided("R1", "AGREE", f, text, "the loop over find_xor_key_candidates(..) cannot be located")
+            continue
+        ksrc = sorted(src(k) for k in keys)
+        extra = [k for k in keys if src(k) not in kvars]
+        ok_base = src(base) == f"{g}.masked_beacon_config" and src(cbase) == src(base)
+        ok_keys = len(keys) == len(ckeys) + 1 and sorted(src(k) for k in extra) == sorted(src(k) for k in ckeys) and len(extra) == len(keys) - 1
+        ok_bk = len(extra) == 1 and _is_beacon_key(f, extra[0], g)
+        ok = ok_base and ok_keys and ok_bk
+        ctx.ob("R1", "AGREE", f, text, ok,
+               ("candidate keys are tried on the single-byte-unmasked configuration they were derived from" if ok else "unmasking chain is wrong")
+               + f": stored value = {src(base)} ^ {ksrc}; candidates derived from {src(cbase)} ^ {sorted(src(k) for k in ckeys)}; candidate variable {kvars}", st)
+    # constants stored as the single-byte key
+    for st, g, v in _attr_stores(f.node, "beacon_xor_key"):
+        val = _c(_inl(f, v)) if v is not None else None
+        if isinstance(val, bytes):
+            ctx.ob("R1", "TABLE", f, "beacon_xor_key constant", val == BEACON_XOR_KEY, f"single-byte key {val!r} (required {BEACON_XOR_KEY!r})", st)
+
+
+def _r1_scan_prefill(ctx):
     g = ctx.repo.func("guardrails.iter_guardrail_configs")
-    ctor = [c for c in fn_calls(g.node) if dotted(c.func) == "GuardrailMetadata"]
-    ok = len(ctor) == 1 and isinstance(kwarg(ctor[0], "unmasked_beacon_config"), ast.Constant) and kwarg(ctor[0], "unmasked_beacon_config").value is None \
-        and isinstance(kwarg(ctor[0], "payload_xor_key"), ast.Constant) and kwarg(ctor[0], "payload_xor_key").value is None
-    ctx.ob("R1", "AGREE", g, "GuardrailMetadata(unmasked_beacon_config=None, payload_xor_key=None)", ok, "the scan itself never reports an unmasked configuration" if ok else "iter_guardrail_configs pre-fills the unmasked configuration / key")
-    # yields: with config only in the matching branch, without otherwise
-    ys = [n for n in body_walk(f.node) if isinstance(n, ast.Yield)]
-    ctx.ob("R1", "AGREE", f, "yields", len(ys) == 2, f"{len(ys)} yield sites (matching key / no key found)")
+    _prep(ctx, g)
+    text = "GuardrailMetadata(unmasked_beacon_config=None, payload_xor_key=None)"
+    ctors = _ctor_calls(ctx, g, "guardrails.GuardrailMetadata")
+    if not ctors:
+        ctx.undecided("R1", "AGREE", g, text, "no construction of GuardrailMetadata found in the scan")
+        return
+    for c in ctors:
+        a = _ctor_args(ctx, c, "guardrails.GuardrailMetadata")
+        if a is None or "unmasked_beacon_config" not in a or "payload_xor_key" not in a:
+            ctx.undecided("R1", "AGREE", g, text, "constructor arguments are not explicit (* / ** call)", c)
+            continue
+        vals = {k: a[k] for k in ("unmasked_beacon_config", "payload_xor_key")}
+        ok = all(v is not None and _is_none(g, v) for v in vals.values())
+        ctx.ob("R1", "AGREE", g, text, ok, "the scan itself never reports an unmasked configuration" if ok else
+               f"iter_guardrail_configs pre-fills the unmasked configuration / key: { {k: src(v) if v is not None else 'missing' for k, v in vals.items()} }", c)
+        bk = a.get("beacon_xor_key")
+        val = _c(_inl(g, bk)) if bk is not None else None
+        if isinstance(val, bytes):
+            ctx.ob("R1", "TABLE", g, "beacon_xor_key constant", val == BEACON_XOR_KEY, f"single-byte key {val!r} (required {BEACON_XOR_KEY!r})", c)
+
+
+def _r1_yields(ctx, f, ystmts):
+    """Every guard configuration delivered by the scan is yielded exactly once (with or without unmasked configuration)."""
+    cfg = ctx.cfg(f)
+    outer = [s for s in statements(f.node) if isinstance(s, ast.For) and isinstance(s.target, ast.Name)
+             and _fq(ctx, f, origin(f.node, s.iter)) == "guardrails.iter_guardrail_configs"]
+    if len(outer) != 1:
+        ctx.undecided("R1", "AGREE", f, "yields", f"{len(outer)} for-loops over iter_guardrail_configs(..): the loop that delivers the guard configurations cannot be located")
+        return
+    lp = outer[0]
+    g = lp.target.id
+    ys = [s for s in ystmts if isinstance(s.value, ast.Yield) and s.value.value is not None and _isrc(f, s.value.value) == g and cfg.has(s)]
+    other = [s for s in ystmts if s not in ys]
+    if other:
+        ctx.undecided("R1", "AGREE", f, "yields", f"yields of something else than the guard configuration: {[src(s) for s in other][:3]}")
+        return
+    yn = [cfg.node(s) for s in ys]
+    H, it = cfg.node(lp), cfg.edge_node(lp, "iter")
+    missing = cfg.reaches(it, H, avoiding=yn)
+    twice = [s for s, n in zip(ys, yn) if any(cfg.reaches(n, m, avoiding=[H]) for m in yn)]
+    ok = bool(ys) and not missing and not twice
+    detail = f"{len(ys)} yield site(s); " + (
+        "every guard configuration is yielded exactly once per iteration (matching key or not)" if ok else
+        ("a path through the loop body yields nothing: " + " -> ".join(cfg.witness_path(it, H, avoiding=yn)[:8]) if missing or not ys else
+         f"a guard configuration can be yielded more than once (`{src(twice[0])}` can be followed by another yield in the same iteration)"))
+    ctx.ob("R1", "AGREE", f, "yields", ok, detail)
+
+
+# ================================================================================================================== R2
+def _truthy_pred(names):
+    """pred(atom) for atoms (nnf) that establish a non-empty / non-None value of one of the expressions `names`."""
+    def is_len(e):
+        return isinstance(e, ast.Call) and dotted(e.func) == "len" and len(e.args) == 1 and src(e.args[0]) in names
+
+    def pred(a):
+        if src(a) in names or is_len(a):
+            return True
+        if isinstance(a, ast.Call) and dotted(a.func) == "bool" and len(a.args) == 1 and src(a.args[0]) in names:
+            return True
+        if isinstance(a, ast.Compare) and len(a.ops) == 1:
+            l, op, r = a.left, a.ops[0], a.comparators[0]
+            for x, y, o in ((l, r, op), (r, l, {ast.Lt: ast.Gt, ast.Gt: ast.Lt, ast.LtE: ast.GtE, ast.GtE: ast.LtE}.get(type(op), type(op))())):
+                if src(x) in names and isinstance(y, ast.Constant) and y.value is None and isinstance(o, (ast.IsNot, ast.NotEq)):
+                    return True
+                if src(x) in names and isinstance(y, ast.Constant) and y.value in (b"", "") and isinstance(y.value, (bytes, str)) and isinstance(o, ast.NotEq):
+                    return True
+                if is_len(x) and isinstance(y, ast.Constant) and type(y.value) is int:
+                    if (isinstance(o, ast.Gt) and y.value >= 0) or (isinstance(o, ast.GtE) and y.value >= 1) or (isinstance(o, ast.NotEq) and y.value == 0):
+                        return True
+        return False
+
+    return pred
+
+
+def _loop_source(f, loop):
+    """(iterable the loop variable is drawn from, [conditions that hold for the loop variable]): a loop over
+    `(x for x in IT if C(x))` / `[x for x in IT if C(x)]` / `filter(lambda x: C(x), IT)` draws from IT under C(<loop variable>)."""
+    it = origin(f.node, loop.iter)
+    var = loop.target.id if isinstance(loop.target, ast.Name) else None
+    conds = []
+
+    def rename(e, old):
+        class _R(ast.NodeTransformer):
+            def visit_Name(self, node):
+                return ast.copy_location(ast.Name(id=var, ctx=node.ctx), node) if node.id == old else node
+        return _R().visit(copy.deepcopy(e))
+
+    for _ in range(3):
+        if var and isinstance(it, (ast.GeneratorExp, ast.ListComp)) and len(it.generators) == 1 and isinstance(it.generators[0].target, ast.Name) \
+                and isinstance(it.elt, ast.Name) and it.elt.id == it.generators[0].target.id:
+            gen = it.generators[0]
+            for c in gen.ifs:
+                conds += conjuncts(nnf(rename(c, gen.target.id)))
+            it = origin(f.node, gen.iter)
+        elif var and isinstance(it, ast.Call) and dotted(it.func) == "filter" and len(it.args) == 2 and isinstance(it.args[0], ast.Lambda) \
+                and len(it.args[0].args.args) == 1:
+            conds += conjuncts(nnf(rename(it.args[0].body, it.args[0].args.args[0].arg)))
+            it = origin(f.node, it.args[1])
+        else:
+            break
+    return it, conds
 
 
 def r2(ctx):
     f = ctx.repo.func("beacon.BeaconConfig.from_file")
-    builds = [c for c in fn_calls(f.node) if dotted(c.func) == "cls" and c.args and src(c.args[0]).endswith(".unmasked_beacon_config")]
+    cfg = ctx.cfg(f)
+    fv = FuncView.of(f.node)
+    _prep(ctx, f)
+    builds = []
+    for c in fn_calls(f.node):
+        cal = ctx.rs.resolve_call(f, c)
+        is_ctor = (cal.kind == "class" and cal.fq == "beacon.BeaconConfig") or (cal.kind == "func" and cal.func is not None and cal.func.fq.startswith("beacon.BeaconConfig."))
+        if not is_ctor:
+            continue
+        for a in list(c.args) + [k.value for k in c.keywords]:
+            ai = _inl(f, a)
+            if isinstance(ai, ast.Attribute) and ai.attr == "unmasked_beacon_config":
+                builds.append((c, ai))
+                break
+    if not builds:
+        ctx.undecided("R2", "DOM", f, "cls(<candidate>.unmasked_beacon_config)", "no construction of a BeaconConfig from a guardrail candidate's unmasked configuration found in from_file")
+        return
     ctx.rep.count("guardrail_config_constructions", len(builds), floor=1)
-    for c in builds:
-        g = src(c.args[0]).rsplit(".", 1)[0]
-        ok = guarded_by(ctx, f, c, lambda t: True if src(t) == f"{g}.unmasked_beacon_config" else None)
-        ctx.ob("R2", "DOM", f, src(c), ok, "a configuration is built from a guardrail candidate only when its unmasked config is truthy" if ok else "guardrail candidate used without testing its unmasked config", c)
-        fv = FuncView.of(f.node)
+    for c, ai in builds:
+        g = src(ai.value)
         st = fv.stmt_of(c)
-        name = dotted(st.targets[0]) if isinstance(st, ast.Assign) else None
-        loop = fv.enclosing(c, (ast.For,))
-        gs = [s for s in ast.walk(loop) if isinstance(s, ast.Assign) and dotted(s.targets[0]) == f"{name}.guardrails"] if loop else []
-        ok = len(gs) == 1 and dotted(gs[0].value) == g
-        ctx.ob("R2", "AGREE", f, f"{name}.guardrails = {g}", ok, "the guard metadata attached is the candidate the configuration came from" if ok else "guardrails attribute is not the same candidate")
-        it = loop.iter if loop else None
-        ok = isinstance(it, ast.Call) and ctx.rs.resolve_call(f, it).fq == "guardrails.iter_guardrail_configs_with_beacon"
-        ctx.ob("R2", "AGREE", f, "for grconfig in iter_guardrail_configs_with_beacon(..)", bool(ok), "candidates come from the checksum-validating iterator" if ok else "candidates do not come from iter_guardrail_configs_with_beacon")
+        # where the candidate comes from: the for loop that binds it (possibly over a filtering comprehension, whose
+        # conditions then hold for the loop variable)
+        defs = assignments_to(f.node, g) if g.isidentifier() else []
+        loops_ = [s2 for s2, _v in defs if isinstance(s2, ast.For) and isinstance(s2.target, ast.Name)]
+        source, filters = None, []
+        if len(defs) == 1 and len(loops_) == 1:
+            source, filters = _loop_source(f, loops_[0])
+            if loops_[0] not in fv.ancestors(c):
+                filters = []
+        pred = _truthy_pred({src(ai)})
+        hold = [a for _e, a in _holds_at(ctx, f, st, pred)] + [a for a in filters if pred(a)]
+        ok = bool(hold)
+        ctx.ob("R2", "DOM", f, "cls(<candidate>.unmasked_beacon_config)", ok,
+               f"a configuration is built from a guardrail candidate only when its unmasked config is truthy (`{src(hold[0])}` holds)" if ok else "guardrail candidate used without testing its unmasked config", c)
+        # the guard metadata attached to the result is that candidate
+        text = "<result>.guardrails = <candidate>"
+        name = None
+        if isinstance(st, (ast.Assign, ast.AnnAssign)) and st.value is c:
+            tg = st.targets[0] if isinstance(st, ast.Assign) else st.target
+            name = tg.id if isinstance(tg, ast.Name) else None
+        if name is None:
+            if any(_isrc(f, a) == g for a in list(c.args) + [k.value for k in c.keywords]):
+                ctx.undecided("R2", "AGREE", f, text, "the candidate is passed to the constructor; where it is attached cannot be located", c)
+            elif isinstance(st, ast.Return):
+                ctx.ob("R2", "AGREE", f, text, False, "the configuration is returned without the guard metadata of its candidate", c)
+            else:
+                ctx.undecided("R2", "AGREE", f, text, "the constructed configuration is not bound to a local name", c)
+        else:
+            from csverif.q import reaching_defs
+            gs = [(s2, v2) for s2, b2, v2 in _attr_stores(f.node, "guardrails") if b2 == name and any(d is st for d, _v in reaching_defs(ctx, f, name, s2))]
+            ok = bool(gs) and all(v2 is not None and _isrc(f, v2) == g for _s, v2 in gs)
+            ctx.ob("R2", "AGREE", f, text, ok, "the guard metadata attached is the candidate the configuration came from" if ok else
+                   ("the guard metadata of the candidate is never attached to the configuration built from it" if not gs else f"guardrails attribute is not the same candidate: {[src(s2) for s2, _v in gs]}"), c)
+        # the candidate comes from the checksum-validating iterator
+        text = "for <candidate> in iter_guardrail_configs_with_beacon(..)"
+        if source is None:
+            ctx.undecided("R2", "AGREE", f, text, f"`{g}` is not bound by a single for loop: where the candidate comes from cannot be located", c)
+            continue
+        it = source
+        fq = _fq(ctx, f, it) if isinstance(it, ast.Call) else None
+        if fq == "guardrails.iter_guardrail_configs_with_beacon":
+            ctx.ob("R2", "AGREE", f, text, True, "candidates come from the checksum-validating iterator")
+        elif fq and fq.startswith("guardrails."):
+            ctx.ob("R2", "AGREE", f, text, False, f"candidates come from {fq}, not from the checksum-validating iter_guardrail_configs_with_beacon", loops_[0])
+        else:
+            ctx.undecided("R2", "AGREE", f, text, f"candidates are drawn from `{src(loops_[0].iter)[:60]}`, which is not a call of a guardrails iterator", loops_[0])
+
+
+# ================================================================================================================== R3
+def _leaf_defs(fn, e, depth=0, at=None):
+    """(stmt|None, expr) leaves a local may come from: copies and multiple definitions are followed."""
+    e = strip_cast(e)
+    if depth <= 6 and isinstance(e, ast.Name) and e.id not in params(fn):
+        defs = assignments_to(fn, e.id)
+        if defs and all(v is not None for _s, v in defs):
+            out = []
+            for s, v in defs:
+                out.extend(_leaf_defs(fn, v, depth + 1, s))
+            return out
+    return [(at, e)]
+
+
+def _u32be_of(ctx, f, e):
+    """None: e is not an integer decoding at all; else (ok, bytes expression): ok iff e decodes a 4-byte big-endian
+    unsigned integer."""
+    if not isinstance(e, ast.Call):
+        return None
+    if _fq(ctx, f, e) == "utils.unpack":
+        b = _bound(ctx, f, e) or {}
+        signed = _c(b.get("signed"))
+        return (_c(b.get("size")) == 4 and _c(b.get("byteorder")) == "big" and not signed), b.get("data")
+    d = dotted(e.func)
+    if d == "int.from_bytes" and e.args:
+        bo = e.args[1] if len(e.args) > 1 else next((k.value for k in e.keywords if k.arg == "byteorder"), None)
+        signed = next((k.value for k in e.keywords if k.arg == "signed"), None)
+        data = e.args[0]
+        four = isinstance(data, ast.Subscript) and isinstance(data.slice, ast.Slice) and data.slice.lower is None and _c(data.slice.upper) == 4
+        return (_c(bo) == "big" and not _c(signed)), (data.value if four else data)
+    return None
 
 
 def r3(ctx, mod, env):
@@ -116,161 +777,523 @@ def r3(ctx, mod, env):
     s = cd.struct("GuardrailSetting")
     ref = [cdefs_mod.serialise(cd, s, {"option": go.get(o, -1), "type": st_.get(t, -1), "length": ln}) for o, t, ln in tables.GUARD_STARTS]
     got = _c(ctx.repo.const("guardrails.GUARD_CONFIG_STARTS"), env)
-    ctx.ob("R3", "TABLE", "guardrails.py::GUARD_CONFIG_STARTS", "table", got == ref and cd.endian == ">", f"marker table {got}; serialisation of USER/COMPUTER/DOMAIN (SHORT,2) and LOCAL_IP (INT,4) from the definition: {ref}")
+    got_l = list(got) if isinstance(got, (list, tuple)) else got
+    ctx.ob("R3", "TABLE", "guardrails.py::GUARD_CONFIG_STARTS", "table", got_l == ref and cd.endian == ">", f"marker table {got}; serialisation of USER/COMPUTER/DOMAIN (SHORT,2) and LOCAL_IP (INT,4) from the definition: {ref}")
     f = ctx.repo.func("guardrails.iter_guardrail_configs")
-    ctor = [c for c in fn_calls(f.node) if dotted(c.func) == "GuardrailMetadata"]
-    CK = dotted(kwarg(ctor[0], "checksum")) if ctor else "checksum"
-    cs = [s2 for s2 in statements(f.node) if isinstance(s2, ast.Assign) and dotted(s2.targets[0]) == CK and isinstance(s2.value, ast.Call)]
-    ok = False
-    if len(cs) == 1:
-        cal = ctx.rs.resolve_call(f, cs[0].value)
-        be4 = cal.kind == "func" and cal.func.fq == "utils.unpack" and _c(cal.bound.get("size")) == 4 and _c(cal.bound.get("byteorder")) == "big"
-        g_ok = guarded_by(ctx, f, cs[0], lambda t: True if any(isinstance(op, ast.Eq) and "GuardOption.GUARD_PAYLOAD_CHECKSUM" in (dotted(l), dotted(r)) for l, op, r in compare_parts(t)) else None)
-        ok = be4 and g_ok and src(cs[0].value.args[0]).endswith(".value")
-    ctx.ob("R3", "AGREE", f, "checksum = u32be(setting.value)", ok, "the stored checksum is the 4-byte big-endian value of the GUARD_PAYLOAD_CHECKSUM setting" if ok else "checksum extraction not recognised")
-
-
-def _xpoly(f, e, depth=0):
-    """SymPoly of e with single-definition locals expanded (module constants stay atoms)."""
-    def subst(x):
-        if depth > 6:
-            return None
-        if isinstance(x, ast.Name) and x.id not in params(f.node):
-            defs = [v for st, v in assignments_to(f.node, x.id)]
-            if len(defs) == 1 and defs[0] is not None and not isinstance(defs[0], ast.Call):
-                return _xpoly(f, defs[0], depth + 1)
-        return None
-    return sympoly(e, subst)
-
-
-def r4(ctx, mod, env):
-    from csverif.astutil import pmatch
-
-    f = ctx.repo.func("guardrails.iter_guardrail_configs")
-    bs, gs = _c(ctx.repo.const("guardrails.BEACON_CONFIG_PATCH_SIZE"), env), _c(ctx.repo.const("guardrails.GUARD_PATCH_SIZE"), env)
-    ctx.ob("R4", "TABLE", "guardrails.py::constants", "patch sizes", (bs, gs) == (6144, 2048), f"BEACON_CONFIG_PATCH_SIZE={bs} GUARD_PATCH_SIZE={gs} (6144 / 2048)")
-    starts = _c(ctx.repo.const("guardrails.GUARD_CONFIG_STARTS"), env) or [b""]
-    mlen = len(starts[0])
-    fh, xk = params(f.node)[0], params(f.node)[1]
-    fv = FuncView.of(f.node)
-    ops = sorted([c for c in fn_calls(f.node) if isinstance(c.func, ast.Attribute) and c.func.attr in ("seek", "read") and dotted(c.func.value) == fh], key=lambda c: (c.lineno, c.col_offset))
-    kinds = [c.func.attr for c in ops]
-    if kinds != ["seek", "read", "seek", "read", "read"]:
-        ctx.ob("R4", "CURSOR", f, "read sequence", False, f"file operations in order: {[src(c) for c in ops]}; required seek(offset), read(2*marker), seek(beacon offset), read(beacon patch), read(guard patch)")
+    _prep(ctx, f)
+    text = "checksum = u32be(setting.value)"
+    ctors = _ctor_calls(ctx, f, "guardrails.GuardrailMetadata")
+    args = [_ctor_args(ctx, c, "guardrails.GuardrailMetadata") for c in ctors]
+    if not ctors or any(a is None or a.get("checksum") is None for a in args):
+        ctx.undecided("R3", "AGREE", f, text, "the checksum argument of the GuardrailMetadata construction cannot be located")
         return
-    s0, r0, s1, r1, r2 = ops
+    want_opt = go.get("GUARD_PAYLOAD_CHECKSUM")
+    for a in args:
+        leaves = _leaf_defs(f.node, a["checksum"])
+        decs = []
+        unknown = []
+        for st, e in leaves:
+            if isinstance(_c(e, env), int):
+                continue  # the "no checksum setting" default
+            d = _u32be_of(ctx, f, e)
+            if d is None or st is None:
+                unknown.append(e)
+            else:
+                decs.append((st, e, d))
+        if unknown or not decs:
+            ctx.undecided("R3", "AGREE", f, text, f"the reported checksum comes from {[src(e)[:50] for e in unknown] or 'constants only'}: the decoding of the checksum setting cannot be located")
+            continue
+        for st, e, (be4, data) in decs:
+            di = _inl(f, data) if data is not None else None
+            is_value = isinstance(di, ast.Attribute) and di.attr == "value"
+            sv = src(di.value) if is_value else None
 
-    def var_of(call):
-        st = fv.stmt_of(call)
-        return dotted(st.targets[0]) if isinstance(st, ast.Assign) and st.value is call else None
+            def opt_pred(atom, sv=sv):
+                if not (isinstance(atom, ast.Compare) and len(atom.ops) == 1):
+                    return False
+                l, op, r = atom.left, atom.ops[0], atom.comparators[0]
+                for x, y in ((l, r), (r, l)):
+                    if src(x) == f"{sv}.option" and isinstance(op, (ast.Eq, ast.Is)) and ((dotted(y) or "").endswith("GuardOption.GUARD_PAYLOAD_CHECKSUM") or _c(y, env) == want_opt):
+                        return True
+                    if src(x) == f"{sv}.option.value" and isinstance(op, ast.Eq) and _c(y, env) == want_opt:
+                        return True
+                    if src(x) == f"{sv}.option.name" and isinstance(op, ast.Eq) and _c(y, env) == "GUARD_PAYLOAD_CHECKSUM":
+                        return True
+                if src(l) == f"{sv}.option" and isinstance(op, ast.In) and isinstance(r, (ast.Tuple, ast.List, ast.Set)) and len(r.elts) == 1 \
+                        and (dotted(r.elts[0]) or "").endswith("GuardOption.GUARD_PAYLOAD_CHECKSUM"):
+                    return True
+                return False
 
-    OFF = dotted(s0.args[0])
-    m = pmatch("$s * 2", r0.args[0]) or pmatch("2 * $s", r0.args[0])
-    SIZE = m["s"] if m else None
-    BLOCK, MB, MG = var_of(r0), var_of(r1), var_of(r2)
-    seq_ok = OFF is not None and SIZE is not None and dotted(r1.args[0]) == "BEACON_CONFIG_PATCH_SIZE" and dotted(r2.args[0]) == "GUARD_PATCH_SIZE" and all((BLOCK, MB, MG))
-    ctx.ob("R4", "CURSOR", f, "read sequence", bool(seq_ok), f"seek(<offset>), read(2 * <marker length>), seek(<beacon offset>), read(BEACON_CONFIG_PATCH_SIZE), read(GUARD_PATCH_SIZE): {[src(c) for c in ops]}")
-    ctx.ob("R4", "AGREE", f, "masked blocks", bool(MB and MG), "beacon block then guard block are read back to back")
-    # marker length: SIZE = len(XS[0]) with XS = [xor(x, xorkey) for x in GUARD_CONFIG_STARTS]
-    sd = [v for st, v in assignments_to(f.node, SIZE)] if SIZE else []
-    m = pmatch("len($xs[0])", sd[0]) if len(sd) == 1 else None
-    XS = m["xs"] if m else None
-    xd = [v for st, v in assignments_to(f.node, XS)] if XS else []
-    xs_ok = len(xd) == 1 and pmatch("[xor($x, $k) for $x in GUARD_CONFIG_STARTS]", xd[0], {"k": xk}) is not None
-    ctx.ob("R4", "AGREE", f, "marker length", bool(xs_ok) and all(len(x) == mlen for x in starts), f"marker length = len of the masked marker = {mlen}; masked markers are [xor(start, xorkey) for start in GUARD_CONFIG_STARTS]={bool(xs_ok)}")
-    # geometry through the metadata constructor
-    ctor = [c for c in fn_calls(f.node) if dotted(c.func) == "GuardrailMetadata"]
-    gco = kwarg(ctor[0], "guard_config_offset") if ctor else None
-    bco = kwarg(ctor[0], "beacon_config_offset") if ctor else None
-    gp = _xpoly(f, gco) if gco is not None else None
-    want_g = (SymPoly.atom(OFF) + SymPoly.const(mlen), SymPoly.atom(OFF) + SymPoly.atom(f"len({XS}[0])"))
-    ctx.ob("R4", "AGREE", f, "guard_config_offset = offset + 6", gp in want_g, f"reported guard config offset is {gp}; required <offset> + marker length ({mlen})")
-    bp = _xpoly(f, bco) if bco is not None else None
-    ok = gp is not None and bp == gp - SymPoly.atom("BEACON_CONFIG_PATCH_SIZE") and _xpoly(f, s1.args[0]) == bp
-    ctx.ob("R4", "AGREE", f, "beacon_config_offset", bool(ok), f"reported beacon config offset is {bp}; required guard offset - BEACON_CONFIG_PATCH_SIZE, and the file is read there")
-    u = kwarg(ctor[0], "unmasked_guard_config") if ctor else None
-    from csverif.q import inline as _inl
-    uo = None
-    if u is not None:
-        uo = origin(f.node, u)
-        # inline temporaries but keep the three role variables as names
-        class _K(ast.NodeTransformer):
-            def visit_Name(self, node):
-                if node.id in (MG, MB, xk):
-                    return node
-                o = origin(f.node, node)
-                return self.visit(o) if o is not node and isinstance(o, ast.expr) and not isinstance(o, ast.Name) else node
-        import copy as _copy
-        uo = _K().visit(_copy.deepcopy(uo))
-    ok = uo is not None and (pmatch("xor(xor($mg, $mb[::-1]), $k)", uo, {"mg": MG, "mb": MB, "k": xk}) is not None or pmatch("xor(xor($mg, $k), $mb[::-1])", uo, {"mg": MG, "mb": MB, "k": xk}) is not None)
-    ctx.ob("R4", "AGREE", f, "unmasked_guard_config", bool(ok), f"guard config is unmasked with the REVERSED masked beacon config and the single-byte key: {src(uo)}")
-    tests = [n for n in body_walk(f.node) if isinstance(n, ast.Compare) and isinstance(n.ops[0], ast.In) and dotted(n.comparators[0]) == XS]
-    ok = False
-    if len(tests) == 1:
-        m = pmatch("xor($a[::-1], $b)", tests[0].left) or pmatch("xor($b, $a[::-1])", tests[0].left)
-        if m:
-            ab = [s2 for s2 in statements(f.node) if isinstance(s2, ast.Assign) and isinstance(s2.targets[0], ast.Tuple) and [dotted(t) for t in s2.targets[0].elts] == [m["a"], m["b"]]]
-            ok = len(ab) == 1 and pmatch("($blk[:$s], $blk[$s:])", ab[0].value, {"blk": BLOCK, "s": SIZE}) is not None
-    ctx.ob("R4", "AGREE", f, "marker test", bool(ok), "marker = reversed first half XOR second half of a 2*size window, looked up in the masked starts" if ok else "marker test not recognised")
-    w = [s2 for s2 in statements(f.node) if isinstance(s2, ast.While)]
-    ok = bool(w) and loops.analyse_loop(ctx, f, w[0])[0]
-    ctx.ob("R4", "LOOP", f, "every offset tested", bool(ok) and any(isinstance(s2, ast.AugAssign) and dotted(s2.target) == OFF and _c(s2.value) == 1 for s2 in statements(f.node)), "the scan advances one byte at a time and ends at end of file")
+            guards = _holds_at(ctx, f, st, opt_pred) if is_value else []
+            def opaque(atom):
+                """a condition on the setting's option the rule cannot interpret (not a comparison with a name/constant)"""
+                if isinstance(atom, ast.Compare) and len(atom.ops) == 1 and isinstance(atom.ops[0], (ast.Eq, ast.NotEq, ast.Is, ast.IsNot, ast.In, ast.NotIn)):
+                    sides = [atom.left, atom.comparators[0]]
+                    return not all(dotted(x) is not None or src(x).startswith(f"{sv}.option") or isinstance(x, (ast.Constant, ast.Tuple, ast.List, ast.Set)) for x in sides)
+                return True
+
+            mentions = [a2 for e2, a2 in _edge_atoms(ctx, f) if is_value and f"{sv}.option" in src(a2) and opaque(a2) and ctx.cfg(f).dominates(e2, ctx.cfg(f).node(st))]
+            if is_value and not guards and mentions:
+                ctx.undecided("R3", "AGREE", f, text, f"the decoding is selected by `{src(mentions[0])}`, which the rule cannot relate to GUARD_PAYLOAD_CHECKSUM", st)
+                continue
+            ok = bool(be4 and is_value and guards)
+            ctx.ob("R3", "AGREE", f, text, ok, "the stored checksum is the 4-byte big-endian value of the GUARD_PAYLOAD_CHECKSUM setting" if ok else
+                   f"`{src(e)}`: 4-byte big-endian={bool(be4)}, of a setting's value={is_value}, only for the GUARD_PAYLOAD_CHECKSUM option={bool(guards)}", st)
+
+
+# ================================================================================================================== R4
+def r4(ctx, mod, env):
+    f = ctx.repo.func("guardrails.iter_guardrail_configs")
+    cfg = ctx.cfg(f)
+    fv = FuncView.of(f.node)
+    _prep(ctx, f)
+    num = _Num(ctx, f, env)
+    bs, gs = _c(mod.consts.get("BEACON_CONFIG_PATCH_SIZE"), env), _c(mod.consts.get("GUARD_PATCH_SIZE"), env)
+    ctx.ob("R4", "TABLE", "guardrails.py::constants", "patch sizes", (bs, gs) == (BEACON_AREA, GUARD_AREA), f"BEACON_CONFIG_PATCH_SIZE={bs} GUARD_PATCH_SIZE={gs} ({BEACON_AREA} / {GUARD_AREA})")
+    table = _c(mod.consts.get("GUARD_CONFIG_STARTS"), env)
+    table = list(table) if isinstance(table, (list, tuple)) and table and all(isinstance(x, bytes) for x in table) else None
+    if table is None:
+        ctx.undecided("R4", "AGREE", f, "marker length", "GUARD_CONFIG_STARTS is not a constant table of byte strings")
+        return
+    mlen = len(table[0])
+    ctx.ob("R4", "TABLE", "guardrails.py::GUARD_CONFIG_STARTS", "marker length", all(len(x) == mlen for x in table), f"all markers have the same length ({sorted({len(x) for x in table})})")
+    ps = params(f.node)
+    fh = ps[0]
+    key = ps[1] if len(ps) > 1 else None
+    ops = [c for c in fn_calls(f.node) if isinstance(c.func, ast.Attribute) and c.func.attr in ("seek", "read") and dotted(c.func.value) == fh]
+    readvars = {}
+    for c in ops:
+        st = fv.stmt_of(c)
+        if c.func.attr == "read" and isinstance(st, (ast.Assign, ast.AnnAssign)) and st.value is c:
+            tg = st.targets[0] if isinstance(st, ast.Assign) else st.target
+            if isinstance(tg, ast.Name) and len(assignments_to(f.node, tg.id)) == 1:
+                readvars[tg.id] = c
+    stop = set(readvars)
+
+    # ---- the marker test: `<two halves of a window> in <table masked with the key>`
+    def table_keys(e):
+        """keys the marker table is masked with on the right-hand side of `in`: [] for the plain table, [k] for
+        [xor(m, k) for m in table]; None if not the marker table."""
+        v = _c(e, env)
+        if isinstance(v, (list, tuple, set, frozenset)) and sorted(v) == sorted(table):
+            return []
+        if isinstance(e, ast.Call) and dotted(e.func) in ("list", "tuple", "set", "frozenset") and len(e.args) == 1:
+            e = e.args[0]
+        if isinstance(e, (ast.ListComp, ast.GeneratorExp, ast.SetComp)) and len(e.generators) == 1 and not e.generators[0].ifs and isinstance(e.generators[0].target, ast.Name):
+            tv = _c(e.generators[0].iter, env)
+            if isinstance(tv, (list, tuple)) and sorted(tv) == sorted(table):
+                base, keys = _xor_chain(ctx, f, e.elt)
+                if src(base) == e.generators[0].target.id:
+                    return keys
+        return None
+
+    # located on the branch edges (negation normal form): `if m not in T: continue` and `if m in T:` are the same hit edge
+    tests = []
+    for e, a in _edge_atoms(ctx, f):
+        if isinstance(a, ast.Compare) and len(a.ops) == 1 and isinstance(a.ops[0], ast.In):
+            tk = table_keys(a.comparators[0])
+            if tk is not None:
+                tests.append((e, a, tk))
+    if len(tests) != 1:
+        ctx.undecided("R4", "AGREE", f, "marker test", f"{len(tests)} membership tests against the (masked) marker table: the scan cannot be located")
+        return
+    hit_edge, mt, tkeys = tests[0]
+    mst = cfg.stmt.get(("s", hit_edge[1]))
+    lbase, lkeys = _xor_chain(ctx, f, mt.left)
+    allkeys = [src(k) for k in tkeys + lkeys]
+    halves = [k for k in [lbase] + lkeys if src(k) != key]
+    nkey = len([k for k in allkeys if k == key]) + (1 if src(lbase) == key else 0)
+    W = S1 = None
+    shape = False
+    nrev = 0
+    if len(halves) == 2 and key is not None:
+        # each half: a slice (possibly reversed) of the same block read from the file
+        parts = []
+        for h in halves:
+            r = _reversed_of(h)
+            sl = r if r is not None else h
+            if isinstance(sl, ast.Subscript) and isinstance(sl.slice, ast.Slice) and src(sl.value) in readvars:
+                parts.append((sl, r is not None))
+        if len(parts) == 2 and src(parts[0][0].value) == src(parts[1][0].value):
+            W = src(parts[0][0].value)
+            nrev = sum(1 for _sl, rv in parts if rv)
+            # the reversed one is the first half; without (exactly one) reversal take them in slice order
+            parts.sort(key=lambda x: (not x[1]) if nrev == 1 else (x[0].slice.lower is not None))
+            (ra, _), (b, _) = parts
+            lo_a, hi_a, lo_b, hi_b = ra.slice.lower, ra.slice.upper, b.slice.lower, b.slice.upper
+            s_a, s_b = num._iv(hi_a) if hi_a is not None else None, num._iv(lo_b) if lo_b is not None else None
+            first = (lo_a is None or num._iv(lo_a) == 0) and ra.slice.step is None
+            second = b.slice.step is None and (hi_b is None or num._iv(hi_b) == 2 * (s_b or 0))
+            S1 = s_a
+            shape = nrev == 1 and first and second and s_a is not None and s_a == s_b
+    if W is None:
+        ctx.undecided("R4", "AGREE", f, "marker test", f"`{src(mt)}`: the tested value is not built from two slices of one block read from the file")
+        return
+    ok = shape and S1 == mlen and nkey == 1 and len(allkeys) + 1 - nkey == 2
+    ctx.ob("R4", "AGREE", f, "marker test", bool(ok),
+           (f"marker = reversed first half XOR second half of a 2*{mlen} window, compared with the marker table under the single-byte key" if ok else
+            f"marker test `{src(mt)}`: halves split at {S1} (marker length {mlen}), first half reversed and second half as read={shape}, key `{key}` applied {nkey} time(s) (required once)"), mst)
+    ctx.ob("R4", "AGREE", f, "marker length", S1 == mlen, f"the window is split at {S1}; marker length = {mlen}", mst)
+    wread = readvars[W]
+    wsize = num.val(wread.args[0], stop) if wread.args else -1
+    prev = _last_ops(ctx, f, ops, wread)
+    OFF = None
+    if prev is not None and len(prev) == 1 and prev[0] is not None and prev[0].func.attr == "seek" and len(prev[0].args) == 1 and isinstance(prev[0].args[0], ast.Name):
+        OFF = prev[0].args[0].id
+    if OFF is None:
+        ctx.undecided("R4", "CURSOR", f, "read sequence", f"the window `{src(wread)}` is not read right after one `seek(<scan variable>)`: {[src(p) if p is not None else 'entry' for p in (prev or [])]}")
+        return
+    wseek = prev[0]
+    ctx.ob("R4", "CURSOR", f, "window", wsize == 2 * mlen, f"after seek({OFF}) a window of {wsize} bytes is read (required 2 * marker length = {2 * mlen})", wread)
+
+    # ---- what is reported for a hit
+    ctors = _ctor_calls(ctx, f, "guardrails.GuardrailMetadata")
+    args = _ctor_args(ctx, ctors[0], "guardrails.GuardrailMetadata") if len(ctors) == 1 else None
+    if args is None:
+        ctx.undecided("R4", "AGREE", f, "read sequence", f"{len(ctors)} explicit GuardrailMetadata constructions: what is reported for a hit cannot be located")
+        return
+    ctor_st = fv.stmt_of(ctors[0])
+    dom = hit_edge != cfg.node(ctor_st) and cfg.dominates(hit_edge, cfg.node(ctor_st))
+    ctx.ob("R4", "DOM", f, "report only for a marker", bool(dom), "a guard configuration is reported only where the marker test succeeded" if dom else "the report is not dominated by the marker test", ctors[0])
+
+    def readvar(field):
+        e = _inl(f, args.get(field), stop) if args.get(field) is not None else None
+        return e.id if isinstance(e, ast.Name) and e.id in readvars else None
+
+    MB, MG = readvar("masked_beacon_config"), readvar("masked_guard_config")
+    goff = SymPoly.atom(OFF) + SymPoly.const(mlen)
+    boff = goff - SymPoly.const(BEACON_AREA)
+    if MB is None or MG is None:
+        ctx.undecided("R4", "CURSOR", f, "read sequence", "the reported masked_beacon_config / masked_guard_config are not each the result of one read of the file")
+    else:
+        rb, rg = readvars[MB], readvars[MG]
+        nb, ng = (num.val(rb.args[0], stop) if rb.args else -1), (num.val(rg.args[0], stop) if rg.args else -1)
+        pb, pg = _last_ops(ctx, f, ops, rb), _last_ops(ctx, f, ops, rg)
+
+        def at(prevs, want, also=None):
+            if prevs is None or not prevs:
+                return False, "?"
+            descr = []
+            good = True
+            for p in prevs:
+                if p is None:
+                    good = False
+                    descr.append("entry")
+                elif also is not None and p is also:
+                    descr.append("directly after " + src(p))
+                elif p.func.attr == "seek" and len(p.args) == 1 and num.poly(p.args[0], stop) == want:
+                    descr.append(f"seek({num.poly(p.args[0], stop)})")
+                else:
+                    good = False
+                    descr.append(src(p))
+            return good, ", ".join(descr)
+
+        okb, db = at(pb, boff)
+        okg, dg = at(pg, goff, also=rb if nb == BEACON_AREA else None)
+        seq_ok = okb and okg and nb == BEACON_AREA and ng == GUARD_AREA
+        ctx.ob("R4", "CURSOR", f, "read sequence", bool(seq_ok),
+               f"masked beacon config: {nb} bytes at {db} (required {BEACON_AREA} at {boff}); masked guard config: {ng} bytes at {dg} (required {GUARD_AREA} at {goff} = right behind it)", rb)
+        ctx.ob("R4", "AGREE", f, "masked blocks", bool(okg), "beacon block then guard block are read back to back" if okg else f"the guard block is read at {dg}", rg)
+        # unmasking of the guard configuration
+        u = args.get("unmasked_guard_config")
+        ui = _inl(f, u, stop) if u is not None else None
+        ubase, ukeys = _xor_chain(ctx, f, ui) if ui is not None else (None, [])
+        rev = [k for k in ukeys if _reversed_of(k) is not None and src(_reversed_of(k)) == MB]
+        kk = [k for k in ukeys if src(k) == key]
+        ok = ubase is not None and src(ubase) == MG and len(ukeys) == 2 and len(rev) == 1 and len(kk) == 1
+        ctx.ob("R4", "AGREE", f, "unmasked_guard_config", bool(ok), f"guard config is unmasked with the REVERSED masked beacon config and the single-byte key: {src(ui) if ui is not None else '?'}", ctors[0])
+    gp, bp = num.poly(args.get("guard_config_offset"), stop), num.poly(args.get("beacon_config_offset"), stop)
+    ctx.ob("R4", "AGREE", f, "guard_config_offset = offset + 6", gp == goff, f"reported guard config offset is {gp}; required <offset> + marker length ({mlen})", ctors[0])
+    ctx.ob("R4", "AGREE", f, "beacon_config_offset", bp == boff, f"reported beacon config offset is {bp}; required guard offset - {BEACON_AREA} = {boff}", ctors[0])
+
+    # ---- no admissible offset is skipped: conditions on the scan variable that dominate the report
+    skipped = []
+    for e, a in _edge_atoms(ctx, f):
+        if not (isinstance(a, ast.Compare) and len(a.ops) == 1 and isinstance(a.ops[0], (ast.Lt, ast.LtE, ast.Gt, ast.GtE))):
+            continue
+        if e == cfg.node(ctor_st) or not cfg.dominates(e, cfg.node(ctor_st)):
+            continue
+        pl, pr = num.poly(a.left, stop), num.poly(a.comparators[0], stop)
+        lin = _linear(pl - pr, OFF) if pl is not None and pr is not None else None
+        if lin is None or lin[0] == 0:
+            continue
+        a_, c_ = lin
+        op = type(a.ops[0])
+        if a_ < 0:
+            a_, c_ = -a_, -c_
+            op = {ast.Lt: ast.Gt, ast.Gt: ast.Lt, ast.LtE: ast.GtE, ast.GtE: ast.LtE}[op]
+        bound = -c_ / a_  # OFF op bound
+        first_ok = BEACON_AREA - mlen  # smallest offset with room for the beacon area in front of the guard configuration
+        if op in (ast.Lt, ast.LtE):
+            skipped.append(f"`{src(a)}` never reports offsets above {bound}")
+        elif (op is ast.GtE and bound > first_ok) or (op is ast.Gt and bound >= first_ok):
+            skipped.append(f"`{src(a)}` skips admissible offsets from {first_ok} (beacon area starts at 0) up to {bound}")
+    ctx.ob("R4", "ABS", f, "no admissible offset skipped", not skipped, "; ".join(skipped) if skipped else
+           f"conditions on the scan variable that dominate the report exclude only offsets below {BEACON_AREA - mlen} (no room for the beacon area)", ctor_st)
+
+    # ---- the scan visits every offset
+    loop = fv.enclosing(wread, (ast.While, ast.For))
+    if not isinstance(loop, ast.While):
+        ctx.undecided("R4", "LOOP", f, "every offset tested", "the scan is not a while loop over a position variable")
+        return
+    H = cfg.node(loop)
+    inner = {id(n) for n in ast.walk(loop)}
+    defs = assignments_to(f.node, OFF)
+    incs, wrong, init = [], [], []
+    for st, v in defs:
+        s = st if isinstance(st, ast.stmt) else fv.stmt_of(st)
+        if id(s) not in inner:
+            init.append(num.val(v) if v is not None else None)
+            continue
+        if isinstance(s, ast.AugAssign) and isinstance(s.op, ast.Add) and num.val(s.value) == 1:
+            incs.append(s)
+        elif isinstance(s, (ast.Assign, ast.AnnAssign)) and v is not None and sympoly(v) == SymPoly.atom(OFF) + SymPoly.const(1):
+            incs.append(s)
+        else:
+            wrong.append(s)
+    inodes = [cfg.node(s) for s in incs]
+    none = cfg.reaches(cfg.edge_node(loop, "true"), H, avoiding=inodes)
+    twice = any(cfg.reaches(n, m, avoiding=[H]) for n in inodes for m in inodes)
+    wsn, cn = cfg.node(fv.stmt_of(wseek)), cfg.node(ctor_st)
+    moved = any(cfg.reaches(wsn, n, avoiding=[H]) and cfg.reaches(n, cn, avoiding=[H]) for n in inodes + [cfg.node(s) for s in wrong])
+    if any(v is None for v in init) or not init:
+        ctx.undecided("R4", "LOOP", f, "every offset tested", "the scan variable does not start from a constant: the scanned range cannot be located", loop)
+        return
+    ok = not wrong and bool(incs) and not none and not twice and not moved and init == [0]
+    ctx.ob("R4", "LOOP", f, "every offset tested", ok,
+           "the scan starts at 0 and advances exactly one byte on every cycle (termination: R6)" if ok else
+           f"scan variable: initial values {init} (required [0]); other updates {[src(s) for s in wrong]}; a cycle without increment={bool(none)}; two increments in one cycle={bool(twice)}; "
+           f"changed between the window seek and the report={bool(moved)}", loop)
+
+
+# ================================================================================================================== R5
+def _range_values(e, ev):
+    """(start, stop, step) of a range(..) call with numeric arguments."""
+    if isinstance(e, ast.Call) and dotted(e.func) == "range" and 1 <= len(e.args) <= 3 and not e.keywords:
+        vals = [ev(a) for a in e.args]
+        if any(v is None for v in vals):
+            return None
+        if len(vals) == 1:
+            return 0, vals[0], 1
+        if len(vals) == 2:
+            return vals[0], vals[1], 1
+        return tuple(vals)
+    return None
 
 
 def r5(ctx):
+    mod = ctx.repo.module("guardrails")
+    menv = module_env(mod)
     f = ctx.repo.func("guardrails.find_xor_key_candidates")
-    rg = [c for c in fn_calls(f.node) if dotted(c.func) == "range"]
-    ok = len(rg) == 1 and [_c(a) for a in rg[0].args] == [2, 257]
-    ctx.ob("R5", "TABLE", f, "range(2, 257)", ok, f"key lengths tried: range({', '.join(src(a) for a in rg[0].args) if rg else '?'}) (2..256)")
-    gr = [c for c in fn_calls(f.node) if ctx.rs.resolve_call(f, c).fq == "utils.grouper"]
-    klv = [dotted(s2.target) for s2 in statements(f.node) if isinstance(s2, ast.For) and isinstance(s2.iter, ast.Call) and dotted(s2.iter.func) == "range"]
-    ok = len(gr) == 1 and bool(klv) and dotted(kwarg(gr[0], "n") or (gr[0].args[1] if len(gr[0].args) > 1 else None)) == klv[0]
-    ctx.ob("R5", "AGREE", f, "grouper(chunk, n=keylen)", ok, "n-grams of the key length are counted")
-    # n-grams are cut per chunk, so the grouping restarts at every chunk boundary: for key lengths that do not divide the
-    # chunk size later chunks count a *rotated* key. The whole protected area (BEACON_CONFIG_PATCH_SIZE bytes) must
+    _prep(ctx, f)
+    num = _Num(ctx, f, menv)
+    fv = FuncView.of(f.node)
+    # ---- n-gram length: the variable bound to grouper's `n`, and the values it ranges over
+    gr = [c for c in fn_calls(f.node) if _fq(ctx, f, c) == "utils.grouper"]
+    lo, hi = KEY_LENGTHS
+    def const_range(loop):
+        it = origin(f.node, loop.iter)
+        if isinstance(it, ast.Name) and it.id in mod.consts:
+            it = mod.consts[it.id]
+        return _range_values(it, lambda a: num.val(a))
+
+    lp = None
+    if len(gr) != 1:
+        ctx.undecided("R5", "AGREE", f, "grouper(chunk, n=keylen)", f"{len(gr)} calls of utils.grouper: the n-gram counting cannot be located")
+        # the key lengths can still be located as the only loop of the function over a constant range
+        rl = [s2 for s2 in statements(f.node) if isinstance(s2, ast.For) and isinstance(s2.target, ast.Name) and const_range(s2) is not None]
+        lp = rl[0] if len(rl) == 1 else None
+    else:
+        b = _bound(ctx, f, gr[0]) or {}
+        n = b.get("n")
+        nv = strip_cast(n) if n is not None else None
+        while isinstance(nv, ast.Name) and len(assignments_to(f.node, nv.id)) == 1 and assignments_to(f.node, nv.id)[0][1] is not None:
+            nv = strip_cast(assignments_to(f.node, nv.id)[0][1])
+        if isinstance(nv, ast.Name):
+            d = assignments_to(f.node, nv.id)
+            if len(d) == 1 and isinstance(d[0][0], ast.For) and isinstance(d[0][0].target, ast.Name):
+                lp = d[0][0]
+        if lp is not None:
+            ctx.ob("R5", "AGREE", f, "grouper(chunk, n=keylen)", True, "n-grams of the key length are counted", gr[0])
+        elif n is not None and num.val(n) is not None:
+            ctx.ob("R5", "AGREE", f, "grouper(chunk, n=keylen)", False, f"n-grams of the fixed size {num.val(n)} are counted, not of the key length being tried", gr[0])
+        else:
+            ctx.undecided("R5", "AGREE", f, "grouper(chunk, n=keylen)", f"the n-gram size `{src(n) if n is not None else '?'}` is not bound by a for loop", gr[0])
+    if lp is None:
+        if not (len(gr) == 1 and n is not None and num.val(n) is not None):
+            ctx.undecided("R5", "TABLE", f, "range(2, 257)", "the loop over the key lengths cannot be located")
+    else:
+        rv = const_range(lp)
+        if rv is None:
+            ctx.undecided("R5", "TABLE", f, "range(2, 257)", f"key lengths are drawn from `{src(lp.iter)}`, not a constant range")
+        else:
+            vals = range(*rv) if rv[2] else range(0)
+            ok = bool(len(vals)) and len(vals) == hi - lo + 1 and vals[0] == lo and vals[-1] == hi
+            ctx.ob("R5", "TABLE", f, "range(2, 257)", ok, f"key lengths tried: range{rv} = {vals[0] if len(vals) else '-'}..{vals[-1] if len(vals) else '-'} (required {lo}..{hi})", lp)
+    # ---- n-grams are cut per chunk, so the grouping restarts at every chunk boundary: for key lengths that do not divide
+    # the chunk size later chunks count a *rotated* key.  The whole protected area (BEACON_CONFIG_PATCH_SIZE bytes) must
     # therefore arrive as one chunk: read size >= area size (or an unbounded read).
-    menv = module_env(ctx.repo.module("guardrails"))
-
-    def size_of(e):
-        if e is None:
-            return -1
-        if dotted(e) in ("io.DEFAULT_BUFFER_SIZE", "DEFAULT_BUFFER_SIZE"):
-            return 8192
-        return _c(e, menv)
-
-    area = _c(ast.Name(id="BEACON_CONFIG_PATCH_SIZE", ctx=ast.Load()), menv)
+    area = _c(mod.consts.get("BEACON_CONFIG_PATCH_SIZE"), menv) or BEACON_AREA
     fh = params(f.node)[0]
     sizes = []
     for c in fn_calls(f.node):
+        a = None
         if dotted(c.func) == f"{fh}.read":
-            sizes.append((c, size_of(c.args[0] if c.args else None)))
+            a = c.args[0] if c.args else next((k.value for k in c.keywords if k.arg in ("size", "n")), None)
         elif dotted(c.func) in ("functools.partial", "partial") and c.args and dotted(c.args[0]) == f"{fh}.read":
-            sizes.append((c, size_of(c.args[1] if len(c.args) > 1 else None)))
-    ok = bool(sizes) and area is not None and all(s is not None and (s < 0 or s >= area) for _c2, s in sizes)
-    ctx.ob("R5", "ABS", f, "one chunk covers the protected area", ok,
-           f"read sizes {[s for _c2, s in sizes]} vs area {area} bytes (io.DEFAULT_BUFFER_SIZE taken as 8192)" + ("" if ok else ": n-gram phase is lost at a chunk boundary inside the area"),
-           sizes[0][0] if sizes else f.node)
+            a = c.args[1] if len(c.args) > 1 else None
+        else:
+            continue
+        v = -1 if a is None or (isinstance(a, ast.Constant) and a.value is None) else num.val(a)
+        sizes.append((c, v))
+    if not sizes:
+        ctx.undecided("R5", "ABS", f, "one chunk covers the protected area", "no read of the candidate stream found")
+    elif any(s is None for _c2, s in sizes):
+        ctx.undecided("R5", "ABS", f, "one chunk covers the protected area", f"chunk size is not a constant: {[src(c) for c, s in sizes if s is None]}")
+    else:
+        ok = all(s < 0 or s >= area for _c2, s in sizes)
+        ctx.ob("R5", "ABS", f, "one chunk covers the protected area", ok,
+               f"read sizes {[s for _c2, s in sizes]} vs area {area} bytes (io.DEFAULT_BUFFER_SIZE taken as 8192)" + ("" if ok else ": n-gram phase is lost at a chunk boundary inside the area"), sizes[0][0])
     mc = [c for c in fn_calls(f.node) if isinstance(c.func, ast.Attribute) and c.func.attr == "most_common"]
-    ctx.ob("R5", "AGREE", f, "most_common(2)", len(mc) == 1 and _c(mc[0].args[0]) == 2, "the two most common n-grams are candidates")
+    if not mc:
+        ctx.undecided("R5", "AGREE", f, "most_common(2)", "no Counter.most_common(..) call: how candidates are ranked cannot be located")
+    for c in mc:
+        a = c.args[0] if c.args else next((k.value for k in c.keywords if k.arg == "n"), None)
+        k = num.val(a) if a is not None and not (isinstance(a, ast.Constant) and a.value is None) else None
+        par = fv.parent.get(id(c))
+        if a is None and isinstance(par, ast.Subscript) and isinstance(par.slice, ast.Slice) and par.slice.lower is None:
+            k = num.val(par.slice.upper)
+            a = par.slice.upper
+        ok = (a is None) or (k is not None and k >= 2)
+        if a is not None and k is None:
+            ctx.undecided("R5", "AGREE", f, "most_common(2)", f"`{src(c)}`: the number of ranked n-grams is not a constant", c)
+        else:
+            ctx.ob("R5", "AGREE", f, "most_common(2)", ok, f"the {k if a is not None else 'all'} most common n-grams are ranked (at least the two most common must be candidates)", c)
+    _r5_checksum(ctx, menv)
+
+
+def _r5_checksum(ctx, menv):
+    """payload_checksum(data) = sum(data[i] * (i % 3 + 1) for all i) mod 99999999, as an accumulation loop (reduced in every
+    step or once at the end) or a sum() over a generator; bytes taken by index or through enumerate."""
     p = ctx.repo.func("guardrails.payload_checksum")
-    aug = [s for s in statements(p.node) if isinstance(s, ast.Assign) and isinstance(s.value, ast.BinOp) and isinstance(s.value.op, ast.Mod)]
-    ok = False
-    detail = "checksum update not recognised"
-    if len(aug) == 1 and isinstance(aug[0].value.op, ast.Mod):
-        from csverif.astutil import pmatch
-        mod_c = _c(aug[0].value.right)
-        inner = aug[0].value.left
-        txt = src(inner)
-        d0 = params(p.node)[0]
-        pats = ("$n + ($d[$i] & 255) * ($i % 3 + 1)", "$n + $d[$i] * ($i % 3 + 1)", "$n + ($i % 3 + 1) * ($d[$i] & 255)")
-        ok = mod_c == 99999999 and any(pmatch(pt, inner, {"d": d0}) is not None for pt in pats)
-        detail = f"n = ({txt}) % {mod_c}; required (n + byte * (i % 3 + 1)) % 99999999"
-    ctx.ob("R5", "TABLE", p, "checksum weights", ok, detail)
-    lp = [s for s in statements(p.node) if isinstance(s, ast.For)]
-    ok = len(lp) == 1 and src(lp[0].iter) == f"range(len({params(p.node)[0]}))"
-    ctx.ob("R5", "AGREE", p, "for i in range(len(data))", ok, "every byte is weighted by its index")
+    _prep(ctx, p)
+    num = _Num(ctx, p, menv)
+    T_W, T_I = "checksum weights", "for i in range(len(data))"
+    D = params(p.node)[0]
+
+    def iteration(target, it):
+        """(index variable, {texts of the byte at that index}, covers every byte from index 0) or None."""
+        it = _inl(p, it)
+        if isinstance(it, ast.Call) and dotted(it.func) == "range" and isinstance(target, ast.Name):
+            rv = it.args
+            full = (len(rv) == 1 and src(rv[0]) == f"len({D})") or (len(rv) == 2 and num._iv(rv[0]) == 0 and src(rv[1]) == f"len({D})") \
+                or (len(rv) == 3 and num._iv(rv[0]) == 0 and src(rv[1]) == f"len({D})" and num._iv(rv[2]) == 1)
+            return target.id, {f"{D}[{target.id}]"}, full
+        if isinstance(it, ast.Call) and dotted(it.func) == "enumerate" and isinstance(target, ast.Tuple) and len(target.elts) == 2 \
+                and all(isinstance(t, ast.Name) for t in target.elts) and it.args:
+            start = it.args[1] if len(it.args) > 1 else next((k.value for k in it.keywords if k.arg == "start"), None)
+            full = src(it.args[0]) == D and (start is None or num._iv(start) == 0)
+            return target.elts[0].id, {target.elts[1].id, f"{D}[{target.elts[0].id}]"}, full
+        return None
+
+    def term_poly(e, I, B, acc=None):
+        def subst(x):
+            if isinstance(x, ast.BinOp) and isinstance(x.op, ast.BitAnd):
+                for a, b in ((x.left, x.right), (x.right, x.left)):
+                    if src(a) in B and num._iv(b) == 255:
+                        return SymPoly.atom("BYTE")
+            if src(x) in B:
+                return SymPoly.atom("BYTE")
+            if isinstance(x, ast.Call) and dotted(x.func) == "int" and len(x.args) == 1 and src(x.args[0]) in B:
+                return SymPoly.atom("BYTE")
+            if isinstance(x, ast.BinOp) and isinstance(x.op, ast.Mod) and src(x.left) == I:
+                m = num._iv(x.right)
+                return SymPoly.atom(f"IMOD{m}")
+            if isinstance(x, ast.Subscript) and not isinstance(x.slice, ast.Slice):
+                tab = _c(x.value, menv)
+                ix = x.slice
+                if isinstance(tab, (tuple, list)) and tab and isinstance(ix, ast.BinOp) and isinstance(ix.op, ast.Mod) and src(ix.left) == I and num._iv(ix.right) == len(tab) \
+                        and all(isinstance(t, int) for t in tab):
+                    if list(tab) == [tab[0] + j for j in range(len(tab))]:
+                        return SymPoly.atom(f"IMOD{len(tab)}") + SymPoly.const(tab[0])
+                    return SymPoly.atom(f"TABLE{tuple(tab)}[i % {len(tab)}]")
+            v = num._iv(x)
+            return SymPoly.const(v) if v is not None else None
+
+        return sympoly(_inl(p, e, stop={acc} if acc else ()), subst)
+
+    WANT = SymPoly.atom("BYTE") * SymPoly.atom("IMOD3") + SymPoly.atom("BYTE")
+    rets = [s for s in statements(p.node) if isinstance(s, ast.Return)]
+    if len(rets) != 1 or rets[0].value is None:
+        ctx.undecided("R5", "TABLE", p, T_W, f"{len(rets)} return statements: checksum algorithm not recognised")
+        return
+    rv = rets[0].value
+    loops_ = [s for s in statements(p.node) if isinstance(s, ast.For)]
+    found = None  # (iteration, term polynomial or None, modulus, reduced where, init ok)
+    if len(loops_) == 1:
+        lp = loops_[0]
+        itn = iteration(lp.target, lp.iter)
+        inner = {id(n) for n in ast.walk(lp)}
+        # the accumulator: the returned name (possibly reduced at the return)
+        r = rv
+        final_mod = None
+        r_in = _inl(p, r)
+        if isinstance(r_in, ast.BinOp) and isinstance(r_in.op, ast.Mod) and isinstance(r_in.left, ast.Name):
+            final_mod, r_in = num._iv(r_in.right), r_in.left
+        if isinstance(r_in, ast.Name) and itn is not None:
+            N = r_in.id
+            I, B, full = itn
+            defs = assignments_to(p.node, N)
+            init = [num.val(v) if v is not None else None for st, v in defs if id(st) not in inner]
+            upd = [(st, v) for st, v in defs if id(st) in inner]
+            term = None
+            step_mod = None
+            recognised = True
+            for st, v in upd:
+                if isinstance(st, ast.AugAssign) and isinstance(st.op, ast.Add):
+                    if term is not None:
+                        recognised = False
+                    term = term_poly(st.value, I, B, N)
+                    recognised = recognised and term is not None
+                elif isinstance(st, ast.AugAssign) and isinstance(st.op, ast.Mod):
+                    step_mod = num.val(st.value)
+                elif isinstance(st, (ast.Assign, ast.AnnAssign)) and v is not None:
+                    vi = _inl(p, v, stop={N})
+                    if isinstance(vi, ast.BinOp) and isinstance(vi.op, ast.Mod):
+                        step_mod = num._iv(vi.right)
+                        vi = vi.left
+                    pl = term_poly(vi, I, B, N)
+                    if pl is None:
+                        recognised = False
+                    elif pl == SymPoly.atom(N):
+                        pass  # n = n % M
+                    else:
+                        if term is not None:
+                            recognised = False
+                        term = pl - SymPoly.atom(N)
+                else:
+                    recognised = False
+            if recognised and upd:
+                found = (itn, term, step_mod if step_mod is not None else final_mod, init == [0], lp)
+    else:
+        r_in = _inl(p, rv)
+        if isinstance(r_in, ast.BinOp) and isinstance(r_in.op, ast.Mod) and isinstance(r_in.left, ast.Call) and dotted(r_in.left.func) == "sum" and r_in.left.args \
+                and isinstance(r_in.left.args[0], (ast.GeneratorExp, ast.ListComp)) and len(r_in.left.args[0].generators) == 1 and not r_in.left.args[0].generators[0].ifs and not loops_:
+            ge = r_in.left.args[0]
+            itn = iteration(ge.generators[0].target, ge.generators[0].iter)
+            start = r_in.left.args[1] if len(r_in.left.args) > 1 else next((k.value for k in r_in.left.keywords if k.arg == "start"), None)
+            if itn is not None:
+                found = (itn, term_poly(ge.elt, itn[0], itn[1]), num._iv(r_in.right), start is None or num._iv(start) == 0, rets[0])
+    if found is None:
+        ctx.undecided("R5", "TABLE", p, T_W, "checksum algorithm not recognised (neither an accumulation loop over the indexed bytes nor sum(..) % modulus)")
+        return
+    (I, B, full), term, modulus, init_ok, where = found
+    ok = term == WANT and modulus == CHECKSUM_MODULUS and init_ok
+    ctx.ob("R5", "TABLE", p, T_W, bool(ok), f"per byte the checksum adds {term} (required {WANT}, i.e. byte * (i % 3 + 1)); modulus {modulus} (required {CHECKSUM_MODULUS}); starts at 0={init_ok}", where)
+    ctx.ob("R5", "AGREE", p, T_I, bool(full), "every byte is weighted by its index (iteration over all of the data from index 0)" if full else "the iteration does not pair every byte of the data with its index from 0", where)
 
 
+# ================================================================================================================== R6
 def r6(ctx):
     esc = effects.check_escape(ctx, "R6", ["guardrails.iter_guardrail_configs_with_beacon"], {"ValueError"})
     for fq in ("guardrails.iter_guardrail_configs",):
